@@ -500,6 +500,73 @@ async fn dial_cases(rep: &mut Report) {
     let _ = set_custom_dns_servers(&[]).await;
 }
 
+/// DX: concurrent requests for the same host with different ports (both may miss the cache), on the
+/// system-resolver branch (localhost via /etc/hosts; getaddrinfo runs in tokio's blocking pool, during
+/// which the paused clock does not advance). Explored single-threaded because the cache is process-global.
+fn concurrent_resolves(rep: &mut Report, thorough: bool) {
+    use crate::ctl::{ExploreCfg, explore_iterative};
+    for n_tasks in [2usize, 3] {
+        let sc = scenario(move || async move {
+            let mut out = Outcome::default();
+            let _ = set_custom_dns_servers(&[]).await; // system resolver, empty cache
+            let ports = [80u16, 443, 8080];
+            let mut hs = vec![];
+            for p in ports.iter().take(n_tasks) {
+                let p = *p;
+                hs.push(tokio::spawn(async move {
+                    crate::ctl::hpoint("h.c07.resolve").await;
+                    (p, tokio::time::timeout(Duration::from_secs(30), resolve_host_with_cache("localhost", p)).await)
+                }));
+            }
+            let mut obs = vec![];
+            for h in hs {
+                match h.await {
+                    Ok((p, Ok(Ok(sa)))) => {
+                        obs.push(format!("{p}->{}", sa.port()));
+                        if sa.port() != p {
+                            out.viol("C07:resolver-returns-port-of-concurrent-request", format!("{n_tasks} concurrent requests for localhost: the request for port {p} resolved to {sa}"));
+                        }
+                        if !sa.ip().is_loopback() {
+                            out.viol("C07:resolver-returns-address-of-other-host", format!("localhost:{p} resolved to {sa}"));
+                        }
+                    }
+                    Ok((p, Ok(Err(e)))) => out.viol("C07:resolution-failed", format!("localhost:{p}: {e}")),
+                    Ok((p, Err(_))) => out.viol("C07:resolution-blocks", format!("localhost:{p}")),
+                    Err(e) => out.viol("panic:task", format!("{e}")),
+                }
+            }
+            obs.sort();
+            out.obs = obs.join(" ");
+            out
+        });
+        let mut cfg = ExploreCfg::new(format!("C07#concurrent-resolves#{n_tasks}"), if n_tasks == 2 { if thorough { 3 } else { 2 } } else { if thorough { 2 } else { 1 } });
+        cfg.workers = 1;
+        cfg.det_replays = 0; // completion order of the blocking lookups is real-time: traces may differ between runs, verdicts are symmetric
+        cfg.exec.quiesce = true;
+        cfg.exec.filter = Some(Arc::new(|n: &str| n.starts_with("dns.") || n.starts_with("h.c07")));
+        cfg.time_cap = Duration::from_secs(if thorough { 300 } else { 20 });
+        cfg.known = rep.known_fn();
+        match explore_iterative(&sc, &cfg) {
+            Ok(st) => {
+                rep.sections.insert(format!("concurrent_resolves_{n_tasks}"), json!({"executions": st.executions, "bound_completed": st.bound_completed, "distinct_observations": st.distinct_obs, "sites": st.sites_hit.iter().collect::<Vec<_>>()}));
+                rep.evaluations += st.executions;
+                rep.nontrivial.insert(0x0707_0000 + n_tasks as u64);
+                for v in &st.violations {
+                    rep.violation(&v.key, &format!("{} [deviations {:?}]", v.detail, v.trace_sites), json!({"engine": "DX", "scenario": cfg.name, "choices": v.choices, "deviations": v.trace_sites}));
+                }
+                if st.capped {
+                    rep.exhaustive = false;
+                    rep.caps.push(st.cap_reason.clone());
+                }
+            }
+            Err(e) => {
+                // nondeterministic completion order can make a replayed prefix reach other sites: not a verdict
+                rep.observe(format!("concurrent-resolves exploration stopped early: {}", crate::report::truncate(&e, 200)));
+            }
+        }
+    }
+}
+
 pub fn run(tier: Tier) -> i32 {
     let mut rep = Report::new("C07", tier, "exploration");
     let thorough = tier.is_thorough();
@@ -558,6 +625,7 @@ pub fn run(tier: Tier) -> i32 {
     check_roundtrips(&mut rep, dests, 64);
     check_fragmentation(&mut rep, thorough);
     rep.sections.insert("destinations".into(), json!({"roundtrips": n_dests, "all_ports": all_ports}));
+    concurrent_resolves(&mut rep, thorough);
     // (b), (c), (d) in real time
     let rt = rt_multi();
     rt.block_on(async {
